@@ -1781,6 +1781,13 @@ def do_append(ex, st, g, s, t, ins):
             for gt, ta in alts_of(t):
                 res.append((b_and(gs, gt), do_append(ex, st, g, sa, ta, ins)))
         return merge_vals(ctx, st.heap, res)
+    if isinstance(s, Str) and isinstance(s.meta, tuple) and s.meta[0] == 'rlview':
+        # s is a view of a bufio.Reader's buffer (result of ReadLine): extending it after a later read on the same reader
+        # uses a buffer that is no longer valid (contract of bufio.Reader.ReadLine)
+        rdo = st.heap.get(s.meta[1])
+        cur = rdo.d.get('rlgen', 0) if isinstance(rdo, LibV) else 0
+        ctx.oblige('assert', 'stale bufio.Reader buffer: result of ReadLine extended by append after the next read on the same reader',
+                   b_and(g, i_cmp('>', cur, s.meta[2], W, True)), ins.get('pos'))
     if isinstance(s, Str) or (isinstance(t, Str) and ex.is_bytes(ins['t'])):
         if isinstance(t, Ptr) and t.obj is None:
             return s
